@@ -323,6 +323,37 @@ def crash_injection(run, tier, work):
         its = got["_current"].get("iter")
         if its not in (1, 3):
             run.fail("checkpoint-neither-old-nor-new", f"after a crash the final name holds iteration {its}", **what)
+    # the same save where the system's temporary directory is another filesystem than the output directory (renames across directories
+    # fail with EXDEV, as they do between /tmp and a scratch or network mount): staging the file anywhere but next to the final name
+    # turns the "rename into place" into a copy onto the final name
+    env_x = dict(env, C08_XDEV="1", TMPDIR=str(Path(tempfile.mkdtemp(prefix="othertmp_", dir=work))))
+
+    def launch_x(i, frac, mode):
+        d = Path(tempfile.mkdtemp(prefix=f"xdev{i}_", dir=work))
+        return d, subprocess.Popen([sys.executable, drv, str(d), str(i), str(frac), mode], stdout=subprocess.PIPE, stderr=subprocess.STDOUT, text=True, env=env_x)
+    dx, px = launch_x(-1, 0.0, "count")
+    outx, _ = px.communicate(timeout=300)
+    run.case(key=("xdev", "trace"), nontrivial=True)
+    if px.returncode != 0 or "EVENTS " not in outx:
+        run.fail("save-raises", f"the save fails when the temporary directory is on another filesystem than the output directory: {outx[-400:]}")
+    else:
+        ev_x = outx.split("EVENTS ", 1)[1].strip().split("|")
+        run.extra["save_io_events_with_tmp_on_another_filesystem"] = ev_x
+        first_open = next((k for k, e in enumerate(ev_x) if e.startswith("open:ckpt.state:")), None)
+        if first_open is not None:
+            # die right after the final name was opened for writing
+            for (i, d, p) in [(i, *launch_x(i, 0.0, "crash")) for i in range(first_open + 1, min(len(ev_x), first_open + 3))]:
+                p.communicate(timeout=300)
+                final = d / "ckpt.state"
+                try:
+                    with open(final, "rb") as f:
+                        dill.load(f)
+                except Exception as e:
+                    run.fail("truncated-checkpoint", f"temporary directory on another filesystem: after a crash before IO event {i} ({ev_x[i]}) the final name holds an "
+                             f"unloadable file ({final.stat().st_size if final.exists() else -1} bytes): {type(e).__name__}", crash_before_event=i, events=ev_x)
+                    break
+            else:
+                run.fail("final-name-opened-for-writing", f"temporary directory on another filesystem: the save opens the checkpoint's final name for writing: {ev_x}")
     # an I/O error (disk full) raised by a write / flush / fsync instead of the process dying: the save fails, the process lives on,
     # and the final name must still hold a complete checkpoint
     io_points = [(i, 0.5 if e == "write" else 0.0) for i, e in enumerate(events) if e in ("write", "flush", "fsync")]
